@@ -137,6 +137,13 @@ class Invoke:
         self.fn_name, self.args, self.then = fn_name, args, then
 
 
+class Forks:
+    """result of an Invoke continuation that splits the path: [(condition, value)]"""
+
+    def __init__(self, items):
+        self.items = items
+
+
 class Frame:
     __slots__ = ("func", "fid", "bb", "ip", "dest", "ret_target", "visits", "on_return")
 
@@ -260,8 +267,25 @@ class Executor:
                                        "(enum order table out of date?)" % (v.ty, v.variant, p[1]))
             elif k == "constindex":
                 if p[2]:
-                    raise Inconclusive("from-end const index")
-                path = path + (p[1],)
+                    # `[-k of n]`: k-th element from the end of a sequence whose length is concrete on this path
+                    v = self.read(st, cell, path)
+                    if not (isinstance(v, Adt) and v.ty in ("[]", "Vec")):
+                        raise Inconclusive("from-end const index into %r" % (v,))
+                    path = path + (len(v.fields) - p[1],)
+                else:
+                    path = path + (p[1],)
+            elif k == "subslice":
+                # `[a:-b]` / `[a:b]`: a read-only view, materialised as a fresh cell holding the sub-sequence
+                v = self.read(st, cell, path)
+                if not (isinstance(v, Adt) and v.ty in ("[]", "Vec")):
+                    raise Inconclusive("subslice of %r" % (v,))
+                lo, hi, from_end = p[1], p[2], p[3]
+                end = len(v.fields) - hi if from_end else hi
+                if lo > end:
+                    raise Inconclusive("subslice bounds")
+                st.nframe += 1
+                cell, path = ("view", st.nframe), ()
+                st.cells[cell] = Adt("[]", None, v.fields[lo:end])
             elif k == "index":
                 iv = self.read(st, (fr.fid, p[1]), ())
                 c = z3.simplify(iv.e)
@@ -719,6 +743,15 @@ class Executor:
             self.goto(fr, t.a["target"])
             return None
         if k == "drop":
+            hooks = getattr(self, "drop_hooks", None)
+            if hooks:
+                # drop glue of modelled guard types (e.g. GcCell borrow guards release their borrow flag)
+                try:
+                    v = self.read_place(st, fr, t.a["place"])
+                except Inconclusive:
+                    v = None
+                if isinstance(v, Adt) and v.ty in hooks:
+                    hooks[v.ty](self, st, v)
             self.goto(fr, t.a["target"])
             return None
         if k == "return":
@@ -734,6 +767,27 @@ class Executor:
                 if isinstance(r, Invoke):
                     self.push_frame(st, self.mf.func(r.fn_name), r.args, dest=fr.dest, ret_target=fr.ret_target, on_return=r.then)
                     return None
+                if isinstance(r, Forks):
+                    out = []
+                    for cond, val in r.items:
+                        if not self.feasible(st.pc, cond):
+                            continue
+                        s2 = st.clone()
+                        c = z3.simplify(cond)
+                        if not z3.is_true(c):
+                            s2.pc.append(c)
+                        if len(s2.frames) <= base:
+                            out.append(("out", Outcome("return", val, s2)))
+                            continue
+                        caller = s2.frames[-1]
+                        cell, path = self.resolve(s2, caller, fr.dest)
+                        self.write(s2, cell, path, val)
+                        if fr.ret_target is None:
+                            raise Inconclusive("return into a diverging call site")
+                        self.goto(caller, fr.ret_target)
+                        out.append(("state", s2))
+                    self.stats["forks"] += max(0, len(out) - 1)
+                    return out
                 rv = r
             if len(st.frames) <= base:
                 return [("out", Outcome("return", rv, st))]
@@ -833,6 +887,13 @@ class Executor:
                         val.site = site_of(fr, t)
                     out.append(("out", Outcome("panic", val, s2)))
                     continue
+                if isinstance(val, tuple) and len(val) == 4 and val[0] == "write+":
+                    self.write(s2, val[1].cell, val[1].path, val[2])
+                    val = val[3]
+                if isinstance(val, tuple) and len(val) == 3 and val[0] == "write":
+                    # a model whose effect differs per fork: write the cell in the forked state, the call returns ()
+                    self.write(s2, val[1].cell, val[1].path, val[2])
+                    val = UNIT
                 if isinstance(val, Invoke):
                     if t.a["target"] is None:
                         raise Inconclusive("closure invocation in a diverging call")
